@@ -225,3 +225,17 @@ Theorem C01_refuted_post_rbind_copy :
   /\ C01.step_spec ex_cfg w_r v_r = false.
 Proof. exact C01_post_refuted_rbind_copy. Qed.
 Print Assumptions C01_refuted_post_rbind_copy.
+
+Theorem C01_refuted_post_later_source :
+  plain_env ex_env = true
+  /\ wf_table (ks_tab (wo_ks w_s)) = true
+  /\ nostack0 ex_cfg (chain ex_cfg (wo_fs w_s) (bs "base0")) (ks_tab (wo_ks w_s)) = true
+  /\ pre_right ex_cfg (wo_fs w_s) (chain ex_cfg (wo_fs w_s) (bs "base0")) (ks_tab (wo_ks w_s)) = false
+  /\ v_res v_s = ROk
+  /\ syscalls (v_log v_s) = []
+  /\ count_at (ks_tab (wo_ks (v_after v_s))) (bs "/b/layers/base0/build/mnt") = 1%nat
+  /\ C01.mount_post ex_cfg (wo_fs w_s) (layers_on_disk ex_cfg (wo_fs w_s))
+       (chain ex_cfg (wo_fs w_s) (bs "base0")) (ks_tab (wo_ks (v_after v_s))) = false
+  /\ C01.step_spec ex_cfg w_s v_s = false.
+Proof. exact C01_post_refuted_later_source. Qed.
+Print Assumptions C01_refuted_post_later_source.
